@@ -6,6 +6,8 @@ unread data, labels) only to steer generation towards calls that are mostly
 valid and to know when a history leaves the capacity limits; nothing it
 computes is used as an oracle."""
 
+import os
+
 from engine import History
 
 
@@ -69,7 +71,11 @@ LABEL_POOL = [
     # label VALUES that print like another label of the pool (the enum is public, so they can be built directly):
     # they are different labels and must stay different edges
     lab_str("x"), lab_str("α7"), lab_str("a b"),
+    # pairs that differ by letter case only (an order or an equality that folds case would merge or swap them)
+    lab_str("Foo"), lab_str("X1"), lab_greek(0x58),
 ]
+if os.environ.get("VERIF_NO_W8"):       # measuring only: the pool as it was before wave 8
+    LABEL_POOL = LABEL_POOL[:-3]
 
 
 def gen_data(rng, maxlen=12):
